@@ -60,7 +60,14 @@ def r_memo(run, tree):
     check_memoised_functions(run, tree, modules=("io/", "config/", "units/", "core/dataset"))
 
 
-RULES = [r1, r3, r5, r6, r7_fresh_pieces, r8_level_cap, r_memo]
+def r10_reader_state(run, tree):
+    run.rule("C04.R10", "the CPU pre-selection a load uses is the one computed for THIS load: every (re)initialisation of the AMR reader resets the file list it carries "
+             "(a list remembered from an earlier selection would drop files that hold qualifying cells; shared with C15.R2)", "D7 history fold of reader.initialize (on / off / files gone)", "", floor=1)
+    from . import io_folds as iof
+    iof.check_reader_initialize(run, tree)
+
+
+RULES = [r1, r3, r5, r6, r7_fresh_pieces, r8_level_cap, r_memo, r10_reader_state]
 
 
 def t_load_space(run, tree):
